@@ -6,7 +6,7 @@
 // case:  hist <regime> S A O <initial tables> NOPS ops… NB beliefs   (operation history, see main)
 // case:  reset <regime> S A O <tables 1> <tables 2> NB beliefs   (see main)
 // case:  bel <regime> S A O  T[a][s][s1]…  Ob[a][s1][o]…  R3[s][a][s1]…  NB  b_1[S] … b_NB[S]
-// out :  for each model kind (dense, sparse, generic):  "ok" followed by (or "throw <type>" instead of)
+// out :  for each model kind (dense, sparse, mixDS = Model<SparseModel>, mixSD = SparseModel<Model>, generic):  "ok" followed by (or "throw <type>" instead of)
 //          for a, o: SOSA[a][o](s,s1) row-major
 //          for each belief: for a: partial[S] reward ; for o: unnorm[S] norm[S] punnorm[S] pnorm[S] pnormv[S]
 #include <AIToolbox/MDP/Model.hpp>
@@ -141,6 +141,9 @@ static SparseMatrix3D toSparse(const Matrix3D & d) {
 
 using DenseP  = POMDP::Model<MDP::Model>;
 using SparseP = POMDP::SparseModel<MDP::SparseModel>;
+using MixDS   = POMDP::Model<MDP::SparseModel>;        // dense observation matrices, sparse transitions/rewards
+using MixSD   = POMDP::SparseModel<MDP::Model>;        // sparse observation matrices, dense transitions/rewards
+static_assert(POMDP::IsModelEigen<MixDS> && POMDP::IsModelEigen<MixSD>);
 
 // container (3-D table) overloads of the three setters
 template <typename M>
@@ -160,6 +163,9 @@ int main(int argc, char ** argv) {
             const auto beliefs = readBeliefs(c, S);
             emitVariant([&]{ return DenseP(O, x.ob, S, A, x.t, x.r, 0.5); }, beliefs, out);
             emitVariant([&]{ return SparseP(O, x.ob, S, A, x.t, x.r, 0.5); }, beliefs, out);
+            // the two mixed library types: dense observations over sparse transitions, and the reverse
+            emitVariant([&]{ return MixDS(O, x.ob, S, A, x.t, x.r, 0.5); }, beliefs, out);
+            emitVariant([&]{ return MixSD(O, x.ob, S, A, x.t, x.r, 0.5); }, beliefs, out);
             emitVariant([&]{ return UserModel(S, A, O, x.t, x.r, x.ob); }, beliefs, out);
         } else if (kind == "reset") {
             // reset <regime> S A O <tables 1> <tables 2> NB beliefs
@@ -292,7 +298,7 @@ int main(int argc, char ** argv) {
             // seq <regime> S A O <tables> b[S] L (a o)*L
             // filtering along a history: b <- update(b, a, o) repeatedly; even steps use updateBelief, odd steps
             // the two-stage pair updateBeliefPartial + updateBeliefPartialNormalized.
-            // out: per variant (dense, sparse, generic): "ok" + L beliefs of S entries
+            // out: per variant (dense, sparse, mixDS, mixSD, generic): "ok" + L beliefs of S entries
             c.next();
             const size_t S = c.nextSize(), A = c.nextSize(), O = c.nextSize();
             const Tables x = readTables(c, S, A, O);
@@ -312,6 +318,8 @@ int main(int argc, char ** argv) {
             };
             { DenseP m(O, x.ob, S, A, x.t, x.r, 0.5);  out << "ok"; filter(m); }
             { SparseP m(O, x.ob, S, A, x.t, x.r, 0.5); out << "ok"; filter(m); }
+            { MixDS m(O, x.ob, S, A, x.t, x.r, 0.5);   out << "ok"; filter(m); }
+            { MixSD m(O, x.ob, S, A, x.t, x.r, 0.5);   out << "ok"; filter(m); }
             { UserModel m(S, A, O, x.t, x.r, x.ob);    out << "ok"; filter(m); }
         } else throw std::logic_error("unknown case kind " + kind);
     });
